@@ -173,6 +173,11 @@ def float_to_fix(signed, n_bits, n_frac):
     mask = int(2**n_bits - 1)
     min_v, max_v = validate_fp_params(signed, n_bits, n_frac)
 
+    # The largest fixed point value. `max_v` is not exactly representable as a
+    # float when it needs more than 53 bits (it rounds *up*) so the converted
+    # value is also saturated in the integer domain.
+    max_fp_val = (1 << (n_bits - (1 if signed else 0))) - 1
+
     # Saturate values
     def bitsk(value):
         """Convert a floating point value to a fixed point value.
@@ -187,7 +192,7 @@ def float_to_fix(signed, n_bits, n_frac):
         if value < 0:
             fp_val = (1 << n_bits) + int(value * 2**n_frac)
         else:
-            fp_val = int(value * 2**n_frac)
+            fp_val = min(int(value * 2**n_frac), max_fp_val)
 
         assert 0 <= fp_val < 1 << (n_bits + 1)
         return fp_val & mask
